@@ -95,12 +95,16 @@ let op_lookup apex cls recs_s qn_s qtys_s =
 let sorted l = Stdlib.List.sort compare l
 let uniq l = Stdlib.List.sort_uniq compare l
 
+(* iteration goes through the model of Node::iter's state machine (node_iter_sm, proved equal to
+   the pre-order walk zone_iter_by_node in Proofs/ZoneIterSmP.v); both are compared here *)
 let show_state_model (z : Z.zone) =
+  let it = match Z.node_iter_sm z.Z.z_apex with
+    | Some l -> if l = Z.zone_iter_by_node z then l else failwith "state machine <> pre-order"
+    | None -> failwith "OutOfFuel" in
   let nodes = sorted (Stdlib.List.map (fun (n, l) ->
-      Printf.sprintf "%s[%s]" (show_name n) (String.concat "|" (Stdlib.List.map show_rrset l)))
-      (Z.zone_iter_by_node z)) in
-  let rrs = sorted (Stdlib.List.map (fun (n, r) -> Printf.sprintf "%s:%s" (show_name n) (show_rrset r))
-      (Z.zone_iter_by_rrset z)) in
+      Printf.sprintf "%s[%s]" (show_name n) (String.concat "|" (Stdlib.List.map show_rrset l))) it) in
+  let rrs = sorted (Stdlib.List.concat_map (fun (n, l) ->
+      Stdlib.List.map (fun r -> Printf.sprintf "%s:%s" (show_name n) (show_rrset r)) l) it) in
   Printf.sprintf "N{%s} R{%s} S%s T%s" (String.concat ";" nodes) (String.concat ";" rrs)
     (show_opt show_single (Z.zone_soa z)) (show_opt show_single (Z.zone_ns z))
 
